@@ -149,7 +149,11 @@ def mixed_alphabet_contract(trace):
     s1 = seq.NucleotideSequence("ACGT")                       # unambiguous alphabet
     s2 = seq.NucleotideSequence("ANRT")                       # ambiguous alphabet
     s3 = seq.GeneralSequence(seq.LetterAlphabet("WXYZ"), "WXYZ")
-    for seqs in ((s1, s2), (s2, s1), (s1, s3), (s3, s2)):
+    # alphabets that are not letter alphabets but whose symbols print as one character (digits; a mix of one-letter
+    # strings and numbers): the gapped strings and str() are documented for them as well
+    s4 = seq.GeneralSequence(seq.Alphabet(list(range(10))), [3, 1, 4, 1])
+    s5 = seq.GeneralSequence(seq.Alphabet(["a", 7, "Z", "-"[:0] or "q"]), ["Z", 7, "a", "q"])
+    for seqs in ((s1, s2), (s2, s1), (s1, s3), (s3, s2), (s4, s4), (s1, s4), (s5, s4), (s4, s5)):
         tr = [t for t in trace if all(x < 4 for x in t)]
         if not tr:
             return None
@@ -160,11 +164,13 @@ def mixed_alphabet_contract(trace):
         except Exception as e:
             return f"alignment of {[str(x) for x in seqs]}: {type(e).__name__}: {e}"
         for r, sq in enumerate(seqs):
-            exp = [None if t[r] == -1 else str(sq)[t[r]] for t in tr]
+            exp = [None if t[r] == -1 else sq.symbols[t[r]] for t in tr]
             if list(syms[r]) != exp:
                 return f"get_symbols row {r} of {[str(x) for x in seqs]} = {list(syms[r])}, expected {exp}"
-            if gapped[r].replace("-", "") != "".join(x for x in exp if x is not None):
-                return f"gapped row {r} stripped of gaps differs from the aligned part of its sequence"
+            if gapped[r] != "".join("-" if x is None else str(x) for x in [None if t[r] == -1 else sq.symbols[t[r]] for t in tr]):
+                return f"gapped row {r} of {[list(x.symbols) for x in seqs]} is {gapped[r]!r}: it does not spell the aligned symbols"
+            if str(ali).split("\n")[r] != gapped[r]:
+                return f"str(alignment) row {r} is {str(ali).splitlines()[r]!r}, the gapped sequence is {gapped[r]!r}"
         codes = align.get_codes(ali)
         for r, sq in enumerate(seqs):
             if codes[r].tolist() != [(-1 if t[r] == -1 else int(sq.code[t[r]])) for t in tr]:
